@@ -35,7 +35,29 @@ open Node
 def snapOf (d : Durable) : SnapFile := (d.snaps.head?).getD {}
 
 /-- the log `openStorage` works with: a log that ends below the snapshot is reset (F7 repair) -/
-def logOf (d : Durable) : NLog := if d.log.last < (snapOf d).index then NLog.reset (snapOf d).index else d.log
+def logOf (d : Durable) : NLog := if staleLog d then NLog.reset (snapOf d).index else d.log
+
+/-- a log that ends below the snapshot is stale -/
+theorem staleLog_of_short (d : Durable) (h : d.log.last < (snapOf d).index) : staleLog d = true := by
+  unfold staleLog
+  simp only [Bool.or_eq_true, decide_eq_true_eq]
+  exact Or.inl h
+
+/-- a log that is not stale reaches the snapshot index -/
+theorem not_stale_reaches (d : Durable) (h : staleLog d = false) : (snapOf d).index ≤ d.log.last := by
+  unfold staleLog at h
+  simp only [Bool.or_eq_false_iff, decide_eq_false_iff_not] at h
+  exact Nat.le_of_not_lt h.1
+
+/-- a log that is not stale and starts below the snapshot index holds, at the snapshot index, the entry the
+snapshot covers (same term): the F18 repair -/
+theorem not_stale_term (d : Durable) (h : staleLog d = false) (hp : d.log.prev < (snapOf d).index) :
+    (d.log.get? (snapOf d).index).map (·.term) = some (snapOf d).term := by
+  unfold staleLog at h
+  simp only [Bool.or_eq_false_iff, Bool.and_eq_false_imp, decide_eq_true_eq] at h
+  have := h.2 hp
+  unfold snapOf
+  simpa using this
 
 /-- Disk well-formedness needed for "the log starts at or below the snapshot": `log.prev ≤ snaps.index`. -/
 def DurWF (d : Durable) : Prop := d.log.prev ≤ (snapOf d).index
@@ -51,12 +73,17 @@ theorem restartNode_fields (d : Durable) (r : Nat) (sor : Bool) :
   ⟨rfl, rfl, rfl, rfl, rfl, rfl, rfl, rfl, rfl, rfl, rfl, rfl⟩
 
 theorem logOf_cases (d : Durable) :
-    (d.log.last < (snapOf d).index ∧ logOf d = NLog.reset (snapOf d).index) ∨
+    (staleLog d = true ∧ logOf d = NLog.reset (snapOf d).index) ∨
     ((snapOf d).index ≤ d.log.last ∧ logOf d = d.log) := by
   unfold logOf
   split
   · rename_i h; exact Or.inl ⟨h, rfl⟩
-  · rename_i h; exact Or.inr ⟨Nat.le_of_not_lt h, rfl⟩
+  · rename_i h
+    have h' : staleLog d = false := by simpa using h
+    exact Or.inr ⟨not_stale_reaches d h', rfl⟩
+
+theorem logOf_short (d : Durable) (h : d.log.last < (snapOf d).index) : logOf d = NLog.reset (snapOf d).index := by
+  unfold logOf; rw [if_pos (staleLog_of_short d h)]
 
 /-- **the restarted log is contiguous with the snapshot** — for EVERY disk content `d`: the last log index is
 at or above the snapshot index and the log's own last index is too; a log that ended below the snapshot
@@ -161,18 +188,19 @@ theorem durable_log (s : Node) :
     s.durable.log.prev = s.log.prev ∧ s.durable.log.segs = s.log.segs ∧ s.durable.snaps = s.snapsDisk ∧
     s.durable.term = s.durTerm ∧ s.durable.vote = s.durVote := ⟨rfl, rfl, rfl, rfl, rfl, rfl⟩
 
-/-- **flushed entries survive crash + restart**: unless the log on disk ends below the newest snapshot
-(then it is reset — everything it held is covered by the snapshot), the restarted log has the same first
+/-- **flushed entries survive crash + restart**: unless the log on disk is stale with respect to the newest
+snapshot (it ends below it, or holds another entry at the snapshot index: then it is reset — what it held is
+covered or superseded by the snapshot), the restarted log has the same first
 index and exactly the entries up to `flushed`; every index in `(prev, flushed]` reads the same entry. -/
 theorem flushed_entries_survive (s : Node) (r : Nat) (sor : Bool)
-    (h : (snapOf s.durable).index ≤ s.durable.log.last) :
+    (h : staleLog s.durable = false) :
     (restartNode s.durable r sor).log.prev = s.log.prev ∧
     (restartNode s.durable r sor).log.entries = s.log.entries.take (s.log.flushed - s.log.prev) ∧
     ∀ j, j ≤ s.log.flushed → (restartNode s.durable r sor).log.get? j = s.log.get? j := by
   obtain ⟨_, _, e3, _⟩ := restartNode_fields s.durable r sor
   have hl : logOf s.durable = s.durable.log := by
     rcases logOf_cases s.durable with ⟨h', _⟩ | ⟨_, e⟩
-    · omega
+    · rw [h] at h'; cases h'
     · exact e
   rw [e3, hl]
   refine ⟨rfl, rfl, fun j hj => ?_⟩
@@ -355,13 +383,14 @@ theorem restartFails_empty_log (d : Durable) (h : d.log.entries = []) : restartF
 theorem restartFails_congr (d d' : Durable) (h1 : d'.log = d.log) (h2 : d'.snaps = d.snaps) :
     restartFails d' = restartFails d := by
   have e1 : snapOf d' = snapOf d := by unfold snapOf; rw [h2]
-  have e2 : logOf d' = logOf d := by unfold logOf; rw [e1, h1]
+  have e0 : staleLog d' = staleLog d := by unfold staleLog; rw [h1, h2]
+  have e2 : logOf d' = logOf d := by unfold logOf; rw [e0, e1, h1]
   have e3 : lastIdxOf d' = lastIdxOf d := by unfold lastIdxOf; rw [e1, e2]
   rw [restartFails_eq, restartFails_eq, e1, e2, e3]
 
-/-- **publishing a newer snapshot cannot make a restart fail** (same log, newest snapshot at or above the
-old one). -/
-theorem restartFails_newer_snapshot (d d' : Durable) (hlog : d'.log = d.log)
+/-- **publishing a newer snapshot cannot make a restart fail** (same log, not stale with respect to the old
+snapshot, newest snapshot at or above the old one). -/
+theorem restartFails_newer_snapshot (d d' : Durable) (hlog : d'.log = d.log) (hst : staleLog d = false)
     (hidx : (snapOf d).index ≤ (snapOf d').index) (h : restartFails d = false) : restartFails d' = false := by
   rw [restartFails_eq] at h ⊢
   rcases logOf_cases d' with ⟨hlt, e'⟩ | ⟨hge, e'⟩
@@ -371,7 +400,7 @@ theorem restartFails_newer_snapshot (d d' : Durable) (hlog : d'.log = d.log)
   · rw [hlog] at hge e'
     have e : logOf d = d.log := by
       rcases logOf_cases d with ⟨hlt, _⟩ | ⟨_, e⟩
-      · omega
+      · rw [hst] at hlt; cases hlt
       · exact e
     by_cases hc : d.log.count > 0
     · have hl : lastIdxOf d = d.log.last := by unfold lastIdxOf; rw [e, if_pos hc]
@@ -743,7 +772,8 @@ snapshot ahead of the log — the F7 window — the log is reset on open; `clear
 theorem install_discard_restart_ok' (s : Node) (q : InstallReq) (hterm : ¬ q.term < s.term)
     (hahead : s.commitIndex < q.lastIndex) (hk : C09.keepsLog s q = false) (sor : Bool)
     (hcid : s.cid ≠ 0) (hnid : s.nid ≠ 0) (hr : s.retain ≥ 1)
-    (hh : ∀ g, s.snapsDisk.head? = some g → g.index ≤ q.lastIndex) (h0 : restartFails s.durable = false) :
+    (hh : ∀ g, s.snapsDisk.head? = some g → g.index ≤ q.lastIndex) (h0 : restartFails s.durable = false)
+    (hst : staleLog s.durable = false) :
     ∀ pt ∈ (s.onInstallSnap q).trace, pt ∈ s.trace ∨
       ∃ n, restart pt.2 s.retain sor = some n ∧ n.lastLogIndex ≥ n.snapIndex ∧ n.log.last ≥ n.snapIndex := by
   intro pt hpt
@@ -768,12 +798,12 @@ theorem install_discard_restart_ok' (s : Node) (q : InstallReq) (hterm : ¬ q.te
   · exact Or.inr (preTrace_restart_ok s q sor hcid hnid h0 pt hpt)
   · right; subst hpt
     refine restart_ok_contiguous _ _ _ (by rw [← hpc] at hcid; exact hcid) (by rw [← hpn] at hnid; exact hnid) ?_
-    refine restartFails_newer_snapshot s.durable _ hplog ?_ h0
+    refine restartFails_newer_snapshot s.durable _ hplog hst ?_ h0
     show _ ≤ (((insertSnap (C09.fileOf q) s.snapsDisk).head?).getD {}).index
     rw [htl]; exact hold
   · right; subst hpt
     refine restart_ok_contiguous _ _ _ (by rw [← hpc] at hcid; exact hcid) (by rw [← hpn] at hnid; exact hnid) ?_
-    refine restartFails_newer_snapshot s.durable _ hplog ?_ h0
+    refine restartFails_newer_snapshot s.durable _ hplog hst ?_ h0
     show _ ≤ ((((insertSnap (C09.fileOf q) s.snapsDisk).take s.retain).head?).getD {}).index
     rw [htl, hk']; exact hold
   · right; subst hpt
@@ -785,10 +815,10 @@ the installed snapshot is always the newest, so no extra hypothesis on the direc
 theorem install_discard_restart_ok (s : Node) (q : InstallReq) (hterm : ¬ q.term < s.term)
     (hahead : s.commitIndex < q.lastIndex) (hk : C09.keepsLog s q = false) (sor : Bool)
     (hcid : s.cid ≠ 0) (hnid : s.nid ≠ 0) (hr : s.retain ≥ 1)
-    (hwf : C09.SnapsWF s) (h0 : restartFails s.durable = false) :
+    (hwf : C09.SnapsWF s) (h0 : restartFails s.durable = false) (hst : staleLog s.durable = false) :
     ∀ pt ∈ (s.onInstallSnap q).trace, pt ∈ s.trace ∨
       ∃ n, restart pt.2 s.retain sor = some n ∧ n.lastLogIndex ≥ n.snapIndex ∧ n.log.last ≥ n.snapIndex :=
-  install_discard_restart_ok' s q hterm hahead hk sor hcid hnid hr (C09.snapsWF_head_le s q hwf hahead) h0
+  install_discard_restart_ok' s q hterm hahead hk sor hcid hnid hr (C09.snapsWF_head_le s q hwf hahead) h0 hst
 
 /-- **… and of every other installation request** (stale term, not ahead of the commit index, keep branch):
 the only possible crash point is `value.set`; the node restarts there as it could before. -/
